@@ -416,10 +416,7 @@ def op_level_probe(seed=0, max_schedules=1500):
                     combos.append(tuple(i for i, o in enumerate(order) if o == 0))
         bad = None
         nrun = 0
-        for pos0 in combos:
-            order = [1] * total
-            for p in pos0:
-                order[p] = 0
+        def run_sched(order, join_s):
             sched = Sched(order, {0: n0, 1: n1})
             box[0] = sched
             res = {}
@@ -438,17 +435,30 @@ def op_level_probe(seed=0, max_schedules=1500):
                 finally:
                     sched.finish(t)
 
-            ths = [threading.Thread(target=worker, args=(0, a)), threading.Thread(target=worker, args=(1, b))]
+            ths = [threading.Thread(target=worker, args=(0, a), daemon=True), threading.Thread(target=worker, args=(1, b), daemon=True)]
             for th in ths:
                 th.start()
             for th in ths:
-                th.join(30)
-            nrun += 1
+                th.join(join_s)
+            hung = any(th.is_alive() for th in ths)
             box[0] = None
-            ok = not errs and all(t in res and onp.shape(res[t]) == onp.shape(solo[t]) and onp.allclose(res[t], solo[t], rtol=1e-12, atol=1e-12) for t in (0, 1))
+            ok = not hung and not errs and all(t in res and onp.shape(res[t]) == onp.shape(solo[t]) and onp.allclose(res[t], solo[t], rtol=1e-12, atol=1e-12) for t in (0, 1))
+            return ok, hung, errs, res
+
+        for pos0 in combos:
+            order = [1] * total
+            for p in pos0:
+                order[p] = 0
+            ok, hung, errs, res = run_sched(order, 30)
+            nrun += 1
             if not ok:
-                bad = {"schedule": order, "errors": errs, "scheduled": {t: (res[t].tolist() if t in res else None) for t in (0, 1)}, "solo": [s_.tolist() for s_ in solo]}
-                break
+                # the scheduler is deterministic: genuine interference reproduces on every re-run of the same schedule; a
+                # thread that merely did not get its turn in time on a loaded machine does not (longer waits on the re-runs)
+                again = [run_sched(order, 120) for _ in range(2)]
+                if all((not o) and (not h) for o, h, _, _ in again):
+                    ok2, hung2, errs, res = again[-1]
+                    bad = {"schedule": order, "errors": errs, "scheduled": {t: (res[t].tolist() if t in res else None) for t in (0, 1)}, "solo": [s_.tolist() for s_ in solo]}
+                    break
         out.append({"programs": [a, b], "yield_points": counts, "schedules_run": nrun, "exhaustive": ncomb <= max_schedules and nrun == ncomb, "bad": bad})
     state1 = (list(warnings.filters), dict(__import__("numpy").geterr()))
     if state1 != state0:
